@@ -6,4 +6,16 @@ theorem tools_xor (a b : Bytes) : Gen.tools.xor a b = .ok (Pyemv.xor a b) := by
   unfold Gen.tools.xor toBytesLE Pyemv.xor
   simp only [xor_fits a b, if_true, bind, Except.bind, pure, Except.pure]
 
+theorem xorBE_fits (a b : Bytes) : fromBE a ^^^ fromBE (b.take a.length) < 256 ^ a.length := by
+  rw [pow256]
+  apply Nat.xor_lt_two_pow
+  · rw [← pow256]; exact fromBE_lt a
+  · rw [← pow256]
+    exact Nat.lt_of_lt_of_le (fromBE_lt _) (Nat.pow_le_pow_right (by omega) (by simp; omega))
+
+/-- the same source as a host with `sys.byteorder == "big"` evaluates it -/
+theorem tools_xor_bigendian (a b : Bytes) : Gen.tools.xor_bigendian a b = .ok (Pyemv.xorBigEndian a b) := by
+  unfold Gen.tools.xor_bigendian toBytesBE Pyemv.xorBigEndian
+  simp only [xorBE_fits a b, if_true, bind, Except.bind, pure, Except.pure]
+
 end Pyemv.ModRefines
